@@ -98,6 +98,40 @@ func Observe(c psatoken.IClaims) model.Obs {
 	return o
 }
 
+// compKey identifies a component by content.
+func compKey(c *model.Comp) string {
+	f := func(p *string) string {
+		if p == nil {
+			return "<nil>"
+		}
+		return fmt.Sprintf("%q", *p)
+	}
+	b := func(p *[]byte) string {
+		if p == nil {
+			return "<nil>"
+		}
+		return fmt.Sprintf("%x", *p)
+	}
+	return f(c.MType) + "|" + b(c.MVal) + "|" + f(c.Version) + "|" + b(c.Signer) + "|" + f(c.Desc)
+}
+
+// realComps turns abstract components into real ones; components that are
+// equal by content become ONE object listed several times (the same pointer).
+func realComps(cs []model.Comp, mk func(*model.Comp) *psatoken.SwComponent) []psatoken.ISwComponent {
+	vals := make([]psatoken.ISwComponent, len(cs))
+	seen := map[string]psatoken.ISwComponent{}
+	for i := range cs {
+		k := compKey(&cs[i])
+		if v, ok := seen[k]; ok {
+			vals[i] = v
+			continue
+		}
+		vals[i] = mk(&cs[i])
+		seen[k] = vals[i]
+	}
+	return vals
+}
+
 // Container builds a real component container holding exactly the abstract
 // components (valid or not). The container's slice is unexported and its Add
 // validates, so invalid components are injected through the container's own
@@ -109,10 +143,7 @@ func Container(cs []model.Comp) (*psatoken.SwComponents[*psatoken.SwComponent], 
 	}
 	// well-formed components go in through Add (no decoder involved); only
 	// lists with a malformed component need the unmarshal route
-	vals := make([]psatoken.ISwComponent, len(cs))
-	for i := range cs {
-		vals[i] = RealComp(&cs[i])
-	}
+	vals := realComps(cs, RealComp)
 	if err := ct.Add(vals...); err == nil {
 		return ct, nil
 	}
@@ -340,10 +371,7 @@ func SetterApply(c psatoken.IClaims, a *model.Claims) error {
 		}
 	}
 	if len(a.Comps) > 0 {
-		var scs []psatoken.ISwComponent
-		for i := range a.Comps {
-			scs = append(scs, RealCompSetters(&a.Comps[i]))
-		}
+		scs := realComps(a.Comps, RealCompSetters)
 		if err := c.SetSoftwareComponents(scs); err != nil {
 			return err
 		}
@@ -459,12 +487,14 @@ func AssignInPlace(x psatoken.IClaims, b *model.Claims, retained []psatoken.ISwC
 	}
 	keep := len(retained) > 0 && len(retained) == len(b.Comps)
 	if keep {
+		ptrs := map[*psatoken.SwComponent]bool{}
 		for i := range retained {
 			sc, ok := retained[i].(*psatoken.SwComponent)
-			if !ok || sc == nil {
-				keep = false
+			if !ok || sc == nil || ptrs[sc] {
+				keep = false // (a component listed twice cannot be edited entry by entry)
 				break
 			}
+			ptrs[sc] = true
 		}
 	}
 	if keep {
